@@ -261,6 +261,38 @@ class BoundMethod:
         return hash((id(self.obj), id(self.fi)))
 
 
+def _asyncio_queue_member(obj, attr):
+    """what a class derived from asyncio.Queue inherits from it (the standard library is not analysed, its documented
+    behaviour is modelled): an unbounded-or-bounded FIFO in `_queue`, maxsize, qsize / empty / full, put_nowait / get_nowait
+    (and put / get, which on the model never have to wait)"""
+    def q():
+        return obj.attrs.setdefault("_queue", [])
+
+    def init(a, k):
+        obj.attrs["_queue"] = []
+        obj.attrs["maxsize"] = obj.attrs["_maxsize"] = (a[0] if a else k.get("maxsize", 0))
+        for nm in ("qsize", "empty", "full", "put_nowait", "get_nowait", "put", "get", "task_done"):
+            obj.attrs.setdefault(nm, _asyncio_queue_member(obj, nm))
+        return None
+
+    def put(a, k):
+        ms = obj.attrs.get("maxsize", 0)
+        if isinstance(ms, int) and ms > 0 and len(q()) >= ms:
+            raise PyRaise("asyncio.QueueFull")
+        q().append(a[0])
+
+    def get(a, k):
+        if not q():
+            raise PyRaise("asyncio.QueueEmpty")
+        return q().pop(0)
+    table = {"__init__": init, "qsize": lambda a, k: len(q()), "empty": lambda a, k: not q(),
+             "full": lambda a, k: isinstance(obj.attrs.get("maxsize", 0), int) and 0 < obj.attrs.get("maxsize", 0) <= len(q()),
+             "put_nowait": put, "get_nowait": get, "put": put, "get": get, "task_done": lambda a, k: None}
+    if attr in table:
+        return Native(table[attr], f"asyncio.Queue.{attr}")
+    return None
+
+
 class SuperRef:
     def __init__(self, obj, after_cls):
         self.obj = obj
@@ -541,7 +573,24 @@ class Interp:
             return
         if isinstance(st, ast.AugAssign):
             cur = self.eval(_load(st.target), env)
-            val = self.binop(st.op, cur, self.eval(st.value, env))
+            rhs = self.eval(st.value, env)
+            # in-place operators of the mutable builtins mutate the object every alias sees (`a = self._xs; a += more`)
+            if isinstance(cur, list) and isinstance(st.op, ast.Add) and not isinstance(rhs, Opaque):
+                from .pystd import lazy_iter
+                try:
+                    cur.extend(list(lazy_iter(rhs)))
+                except TypeError as e:
+                    raise PyRaise(f"TypeError: {e}", st)
+                val = cur
+            elif isinstance(cur, (set, dict, bytearray, _collections.deque)) and isinstance(st.op, (ast.BitOr, ast.Add, ast.BitAnd, ast.Sub)) and not isinstance(rhs, Opaque):
+                import operator as _op
+                fn = {ast.BitOr: _op.ior, ast.Add: _op.iadd, ast.BitAnd: _op.iand, ast.Sub: _op.isub}[type(st.op)]
+                try:
+                    val = fn(cur, rhs)
+                except TypeError as e:
+                    raise PyRaise(f"TypeError: {e}", st)
+            else:
+                val = self.binop(st.op, cur, rhs)
             self.assign(st.target, val, env)
             return
         if isinstance(st, ast.If):
@@ -947,6 +996,8 @@ class Interp:
         if isinstance(base, (Obj, ListObj, DictObj)):
             if attr in base.attrs:
                 return base.attrs[attr]
+            if attr == "__dict__":
+                return base.attrs          # the instance dictionary, live
             if isinstance(base, Obj) and "__fields__" in base.attrs and attr in ("_replace", "_asdict", "_fields"):
                 flds = list(base.attrs["__fields__"])
                 if attr == "_fields":
@@ -1020,6 +1071,10 @@ class Interp:
                 if attr == "__init__":
                     return Native(lambda a, k, o=base.obj: dict.__init__(o, *a, **k), "dict.__init__")
                 return PyMethod(base.obj, attr)
+            if any(b.split(".")[-1] == "Queue" and "asyncio" in b for k in mro for b in k.bases):
+                std = _asyncio_queue_member(base.obj, attr)
+                if std is not None:
+                    return std
             if attr == "__init__":
                 return Builtin("noop")
             raise Undecided(f"super().{attr} not found")
